@@ -1,5 +1,15 @@
 import VProps.C18
+import VProps.C02
+import VProps.C06
+import VProps.C07
+import VProps.C14
+import VProps.C17
 #print axioms V.C18.version_table_total
 #print axioms V.C18.version_table_keys
 #print axioms V.C18.compact_no_panic
 #print axioms V.C18.canonical_no_panic
+#print axioms V.C02.sign_never_panics
+#print axioms V.C06.no_panic
+#print axioms V.C07.no_panic_allowed
+#print axioms V.C14.collect_no_panic
+#print axioms V.C17.splitID_no_panic
